@@ -265,3 +265,53 @@ def tr_maxtau(ctx, a):
 
 register(RelGroup('maxtau_sync.B', SYNC, [Relation('max_tau_monotone', tr_maxtau, rel_ge_disc)], sizes(0, 2), sizes(0, 3), _BT))
 register(RelGroup('maxtau_single.B', SINGLE, [Relation('max_tau_monotone', tr_maxtau, rel_ge_disc)], sizes(0, 2), sizes(0, 3), _BT))
+
+
+# ---- C05 / C12: compiled single-pass distances = average of the profile (two-function composition)
+class _Fn(object):
+    """bare description of the second function of a composition"""
+    cls = None
+
+    def __init__(self, rel, func, models):
+        self.rel, self.func, self._m = rel, func, models
+
+    def call_models(self, mode):
+        return self._m
+
+
+DISTPYX = 'pyspike/cython/cython_distances.pyx'
+from ..contracts.spike import model_get_min_dist, model_dist_at_t  # noqa
+
+
+def tr_to_isidist(ctx, a):
+    return dict(a), []
+
+
+def tr_to_spikedist(ctx, a):
+    b = {'t1': a['spikes1'], 't2': a['spikes2'], 't_start': a['t_start'], 't_end': a['t_end'], 'MRTS': a['MRTS'], 'RI': a['RI']}
+    return b, []
+
+
+def rel_avg_pwc(ctx, o1, o2, a1, a2):
+    x, y = o1
+    tot = 0
+    for k in range(len(y)):
+        tot = arith('+', tot, arith('*', y[k], arith('-', x[k + 1], x[k])))
+    exp = arith('/', tot, arith('-', a1['t_end'], a1['t_start']))
+    return [('distance_is_profile_average', cmp('==', t(o2), t(exp))), ('finite', split(o2)[1])]
+
+
+def rel_avg_pwl(ctx, o1, o2, a1, a2):
+    x, ys, ye = o1
+    tot = 0
+    for k in range(len(ys)):
+        tot = arith('+', tot, arith('*', arith('*', Fraction(1, 2), arith('+', ys[k], ye[k])), arith('-', x[k + 1], x[k])))
+    exp = arith('/', tot, arith('-', a1['t_end'], a1['t_start']))
+    return [('distance_is_profile_average', cmp('==', t(o2), t(exp))), ('finite', split(o2)[1])]
+
+
+register(RelGroup('isidist_pyx.B', ISI, [Relation('avg', tr_to_isidist, rel_avg_pwc)], sizes(1, 2), sizes(1, 3), _BT,
+                  contract2=_Fn(DISTPYX, 'isi_distance_cython', {})))
+register(RelGroup('spikedist_pyx.B', SPK, [Relation('avg', tr_to_spikedist, rel_avg_pwl)], SPK_Q, SPK_T, _BS,
+                  contract2=_Fn(DISTPYX, 'spike_distance_cython', {'get_min_dist_cython': model_get_min_dist(True), 'dist_at_t': model_dist_at_t}),
+                  allow_open=()))
